@@ -64,6 +64,16 @@ def sweep_cases(ctx: core.Ctx, rnd: random.Random, gens: list, repeats: int, *, 
         for fname, sname in (("sample.py", "python"), ("sample.bat", "bat"), ("sample.c", "c"), ("sample.html", "html")):
             for kind in ("code", "comment", "empty"):
                 add(fname, sname, kind, by_name["B3"], {"template": "nocon"}, "nothing-rendered:" + fname, must=False)
+    # a forced --style on files whose header goes to a .license sibling anyway (binary content, a type that takes no comments)
+    for sname in ("html", "c", "python", "tex", "haskell"):
+        if sname in styles:
+            add("sample.png", sname, "binary", by_name["B1"], {"style": sname}, "style-on-sidecar:" + sname)
+            add("sample.json", sname, "code", by_name["B1"], {"style": sname}, "style-on-sidecar:" + sname)
+    # files of a type that takes no comments, whose text declares something all the same: the .license file that annotate
+    # creates for them must not make the linter forget it
+    for fname in ("sample.svg", "sample.csv", "sample.json"):
+        for bn in ("B1", "B9"):
+            add(fname, None, "rawtags", by_name[bn], {}, "uncommentable-with-tags:" + fname)
     # a holder whose name begins with four digits, with an explicit year: the year is part of the notice all the same
     for fname, sname in (("sample.py", "python"), ("sample.c", "c"), ("sample.png", None)):
         add(fname, sname, "code" if sname else "binary", by_name["B1"], {}, "digit-leading-holder:" + fname)
